@@ -217,10 +217,17 @@ class PropertyRun:
                    engine=o.engine, backend=o.backend, solver_output="sat (negated goal satisfiable)", model=o.model,
                    detail=o.detail, all_failed_obligations=[x.to_json() for x in obs])
         suffix = "no-failing-input-found"
+        # 0. a provider obligation (E2 / fdx / stride partition) that already carries a native replay of its counterexample
+        for x in obs:
+            nr = x.model.get("native_replay") if isinstance(x.model, dict) else None
+            if isinstance(nr, dict) and nr.get("reproduced"):
+                rec["native_replay"] = {"obligation": x.id, "result": nr}
+                suffix = ""
+                break
         # 1. contract-provided concretisation of the solver's model, replayed on the real code
         con = pyvc.REGISTRY.get(o.function) if o.function else None
         rp = getattr(con, "replay", None)
-        if rp is not None:
+        if rp is not None and suffix:
             for x in obs:
                 if not x.model:
                     continue
